@@ -280,3 +280,41 @@ Definition cmp_accept (c : accept_case) : list nat :=
   | Some _ => if ac_accepted c then [] else [1%nat]
   | None => if ac_accepted c then [2%nat] else []
   end.
+
+(* ---- C19: the definition printed by `generate` vs the model ---- *)
+From Inkfem Require Import Gen.GenReticular Model.Generate.
+Record gen_case := {
+  gc_spans : nat; gc_levels : nat; gc_span : Q; gc_height : Q; gc_load : Q;
+  gc_nodes : list (nat * Q * Q * bool);            (* id, x, y, fully fixed (else free); sorted by id *)
+  gc_free_ok : bool;                               (* every node that is not fully fixed is fully free *)
+  gc_bars : list (nat * nat * nat * bool);         (* id, start, end, rigid links; in file order *)
+  gc_loads : list (nat * dload Q)                  (* (bar id, distributed load), none concentrated *)
+}.
+Definition dload_eqb (a b : dload Q) : bool :=
+  term_eqb (dl_term a) (dl_term b) && Bool.eqb (dl_local a) (dl_local b) && Qeq_bool (dl_t0 a) (dl_t0 b) &&
+  Qeq_bool (dl_v0 a) (dl_v0 b) && Qeq_bool (dl_t1 a) (dl_t1 b) && Qeq_bool (dl_v1 a) (dl_v1 b).
+Definition qclose (a b : Q) : bool := Qle_bool (Qabs (a - b)) ((1 # 1000000000000000) * (Qabs a + Qabs b)).
+(* mismatch codes: 1 node count, 2 node k, 3 bar count, 4 bar k, 5 loads of bar id, 6 free nodes *)
+Definition cmp_generate (c : gen_case) : list (nat * nat) :=
+  let ns := gen_nodes (gc_spans c) (gc_levels c) (gc_span c) (gc_height c) in
+  let bs := gen_bars (gc_spans c) (gc_levels c) in
+  (if Nat.eqb (length ns) (length (gc_nodes c)) then [] else [(1%nat, length ns)]) ++
+  flat_map (fun p => let m := fst (snd p) in let o := snd (snd p) in
+      let '(oid, ox, oy, ofx) := o in
+      if Nat.eqb (gn_id m) oid && qclose (gn_x m) ox && qclose (gn_y m) oy && Bool.eqb (gn_fixed m) ofx then [] else [(2%nat, fst p)])
+    (indexed (combine ns (gc_nodes c))) ++
+  (if gc_free_ok c then [] else [(6%nat, 0%nat)]) ++
+  (if Nat.eqb (length bs) (length (gc_bars c)) then [] else [(3%nat, length bs)]) ++
+  flat_map (fun p => let m := fst (snd p) in let o := snd (snd p) in
+      let '(oid, o1, o2, orig) := o in
+      if Nat.eqb (gb_id m) oid && Nat.eqb (gb_n1 m) o1 && Nat.eqb (gb_n2 m) o2 && Bool.eqb (gb_rigid m) orig then [] else [(4%nat, fst p)])
+    (indexed (combine bs (gc_bars c))) ++
+  flat_map (fun b =>
+      let mine := filter (fun l => Nat.eqb (fst l) (gb_id b)) (gc_loads c) in
+      if gb_loaded b then
+        match mine with
+        | [l] => if dload_eqb (snd l) (ret_load (gc_load c)) then [] else [(5%nat, gb_id b)]
+        | _ => [(5%nat, gb_id b)]
+        end
+      else match mine with [] => [] | _ => [(5%nat, gb_id b)] end) bs ++
+  (if Nat.eqb (length (gc_loads c)) (length (filter gb_loaded bs)) then [] else [(5%nat, 0%nat)]).
